@@ -23,6 +23,7 @@ RULES_DOC = dict(common.SHARED_DOC)
 RULES_DOC["X4"] = common.X4_DOC
 RULES_DOC["R10"] = "= C05.R1: a condition wait releases the mutex through ABTI_mutex_unlock, enqueues, and re-acquires through ABTI_mutex_lock (the recursive-mutex bookkeeping is kept across a wait); error paths return holding the mutex"
 RULES_DOC["R11"] = "the identity compared with owner_id is the calling work unit: ABTI_self_get_thread_id returns the stream's current work unit (ABTI_xstream::p_thread), or a per-OS-thread address for an external thread -- never something several work units share (two ULTs of one stream must not both look like the owner of a recursive mutex)"
+RULES_DOC["X6"] = common.X6_DOC
 RULES_DOC.update({
     "R1": "unlock_no_recursion: release(lock) before broadcast, both inside the waiter_lock section",
     "R2": "lock_no_recursion: enqueue only after acquire(waiter_lock) and a failed re-try of the mutex word in the same section; returns only after a successful try with waiter_lock released",
@@ -521,6 +522,7 @@ def rule_R11(P, rep):
 
 
 def run(P, rep, tier):
+    common.rule_X6(P, rep)
     common.rule_X4(P, rep)
     v = P.variant
     simple = v == "simple_mutex"
